@@ -91,6 +91,9 @@ Definition tri_solve (upper : bool) (n : nat) (T : mat) (b : vec) : vec :=
 (* torch.cholesky_solve(b, Fm, upper=upper):
      upper = false: A = Fm Fm^T, Fm's LOWER triangle is read;   x = Fm^-T (Fm^-1 b)
      upper = true : A = Fm^T Fm, Fm's UPPER triangle is read;   x = Fm^-1 (Fm^-T b)          *)
+(* The same two substitutions are the FALL-BACK of TriangularLinearOperator._cholesky_solve for a factor that wraps a tensor without
+   a structured _cholesky_solve (a ConstantMul after `chol_op * c`, an AddedDiag after `tri + Diag` / add_diagonal):
+     upper: w = self._transpose_nonbatch().solve(rhs); res = self.solve(w)       lower: w = self.solve(rhs); res = self^T.solve(w) *)
 Definition chol_solve (upper : bool) (n : nat) (Fm : mat) (b : vec) : vec :=
   if upper then tri_solve true n Fm (tri_solve false n (trm n Fm) b)
   else tri_solve true n (trm n Fm) (tri_solve false n Fm b).
